@@ -214,7 +214,7 @@ MCSLock::UnlockS(  //
 
   auto *next = std::bit_cast<MCSLock *>(next_ptr);
   DBGROUP_VERIF_POINT(kMcsUnlockHandOff, this);
-  if ((next->lock_.fetch_sub(kSLock, kRelease) & kSMask) == kNoLocks) {
+  if ((next->lock_.fetch_sub(kSLock, kRelease) & kSMask) == kSLock) {  // the last holder
     DBGROUP_VERIF_POINT(kMcsNodeRecycle, qnode);
     tls_node_.reset(qnode);
   }
